@@ -187,6 +187,17 @@ def _str1(X, ins, argv):
     return [w.uf(ins['static'].replace('.', '_'), w.Str, w.Str)(argv[0])]
 
 
+@ext('strings.Compare')
+def _str_compare(X, ins, argv):
+    # trusted: -1 / 0 / +1 according to the lexicographic order `<` on strings uses (the same uninterpreted str_lt)
+    w = X.w
+    lt = w.uf('str_lt', w.Str, w.Str, z3.BoolSort())
+    a, b = argv[0], argv[1]
+    r = w.fresh('strcmp', I)
+    X.hyp(z3.And(z3.Or(r == -1, r == 0, r == 1), (r == -1) == lt(a, b), (r == 0) == (a == b), (r == 1) == lt(b, a)))
+    return [r]
+
+
 # ---------------------------------------------------------------------- github.com/fredericlemoine/bitset
 # Abstract model (trusted): a BitSet object r has ghost contents bs_bits[r] : Int -> Bool and bs_len[r].
 BS = 'github.com/fredericlemoine/bitset.BitSet'
